@@ -84,7 +84,7 @@ var errhVals = []bool{true, false}
 func (r *cfgRec) apply(s cfgSetting) {
 	switch s.param {
 	case pRetries:
-		r.retries = retryVals[s.val]
+		r.retries = max(1, retryVals[s.val])
 	case pWait:
 		r.wait = waitVals[s.val]
 	case pConc:
@@ -321,7 +321,9 @@ func buildBatch(seq []cfgSetting, shuffleOpts bool) cfgNode {
 }
 
 func observeCfg(n cfgNode, batch bool) cfgRec {
-	r := cfgRec{retries: n.GetMaxRetries(), wait: n.GetWait(), conc: n.GetBatchConcurrency(), errh: n.GetBatchErrorHandling(), prep: "default", exec: "default", post: "default", fb: "default"}
+	// a budget below 1 means one attempt: whether the getter reports what was set (0) or what it
+	// means (1) is the library's choice, so both sides are compared as what they mean
+	r := cfgRec{retries: max(1, n.GetMaxRetries()), wait: n.GetWait(), conc: n.GetBatchConcurrency(), errh: n.GetBatchErrorHandling(), prep: "default", exec: "default", post: "default", fb: "default"}
 	ctx := context.Background()
 	st := flyt.NewSharedStore()
 	var in any = "in"
